@@ -79,6 +79,48 @@ def end_of_iteration(ctx, rid, nx):
         if isinstance(x, ast.Call) and isinstance(x.func, ast.Attribute) and x.func.attr == "next_file":
             return True
         return None
+    # exhaustion signalled by a callee: a method of the class in which `next(it)` (no default) or `raise StopIteration` can
+    # run outside a handler that catches it; the signal leaves __next__ from the call site
+    cls_methods = list(nx.cls.methods.values()) if nx.cls is not None else []
+
+    def unprotected(f_, node):
+        p_ = ctx.prog.parent.get(node)
+        child = node
+        while p_ is not None and p_ is not f_.node:
+            if isinstance(p_, ast.Try) and child in p_.body and any(h.type is None or any(k in norm(h.type) for k in ("StopIteration", "Exception", "BaseException")) for h in p_.handlers):
+                return False
+            child, p_ = p_, ctx.prog.parent.get(p_)
+        return True
+    stops = {}
+    for m_ in cls_methods:
+        for n_ in own_nodes(m_.node):
+            if ((isinstance(n_, ast.Raise) and n_.exc is not None and "StopIteration" in norm(n_.exc)) or
+                    (isinstance(n_, ast.Call) and isinstance(n_.func, ast.Name) and n_.func.id == "next" and len(n_.args) == 1 and not n_.keywords)) and unprotected(m_, n_):
+                stops.setdefault(m_, n_)
+    changed = True
+    while changed:
+        changed = False
+        for m_ in cls_methods:
+            if m_ in stops:
+                continue
+            for n_ in own_nodes(m_.node):
+                if isinstance(n_, ast.Call) and unprotected(m_, n_) and any(t in stops for t in C.targets_of(ctx, m_, n_) if t is not m_):
+                    stops[m_] = n_
+                    changed = True
+                    break
+    implicit = [n_ for n_ in own_nodes(nx.node) if isinstance(n_, ast.Call) and unprotected(nx, n_) and any(t in stops and t is not nx for t in C.targets_of(ctx, nx, n_))]
+    if not raises and implicit and rd_node is not None:
+        bad = None
+        for c_ in implicit:
+            cn_ = C.stmt_node(ctx, nx, c_)
+            if cn_ in C.reach_under(g, rd_node, nonempty, stop=[rd_node]):
+                bad = bad or c_
+        callee = [t for t in C.targets_of(ctx, nx, bad) if t in stops][0] if bad is not None else None
+        ctx.decide(rid, nx, bad is None, "iteration ends with the StopIteration of %s, which __next__ lets through only after an empty read" % ", ".join(sorted({t.name for c_ in implicit for t in C.targets_of(ctx, nx, c_) if t in stops})),
+                   "a StopIteration raised inside %s (`%s`) leaves __next__ through `%s`, which runs after bytes were read: the consumer takes it as the end of the stream and the piece that was being "
+                   "completed - the final short piece of the payload - is dropped" % (callee.name if callee else "?", norm(stops[callee])[:40] if callee else "?", norm(bad)[:50] if bad is not None else "?"),
+                   bad if bad is not None else implicit[0])
+        return SZ
     for r in raises:
         rn = C.stmt_node(ctx, nx, r)
         if rd_node is not None and rn in g.reachable(rd_node):
@@ -452,8 +494,13 @@ def v1_hasher(ctx):
         atoms = [norm(a) for a in C.atoms_of(t)]
         ok = isinstance(t, ast.BoolOp) and isinstance(t.op, ast.And) and "len(%s) < %s" % (arr, PL) in atoms and any(a.endswith("next_file()") for a in atoms) \
             and atoms.index("len(%s) < %s" % (arr, PL)) < [i for i, a in enumerate(atoms) if a.endswith("next_file()")][0]
-        ctx.decide("C01.6", hp, ok, "stitching continues while the piece is short and (then) another file can be opened",
-                   "stitching loop condition is `%s`: must be `len(piece) < piece_length and next_file()` in that order (else a file is opened and skipped when the piece is already full)" % norm(t), t)
+        if not any(a.endswith("next_file()") for a in atoms) and "len(%s) < %s" % (arr, PL) in atoms:
+            # the next file is opened in the body of the loop, not in its condition: another way of writing the hand-over
+            # (what happens when the list is exhausted is judged with the end of the iteration)
+            ctx.undecided("C01.6", hp, "the stitching loop `while %s` opens the next file in its body; that no file is opened once the piece is full is not decided for this form" % norm(t), t)
+        else:
+            ctx.decide("C01.6", hp, ok, "stitching continues while the piece is short and (then) another file can be opened",
+                       "stitching loop condition is `%s`: must be `len(piece) < piece_length and next_file()` in that order (else a file is opened and skipped when the piece is already full)" % norm(t), t)
         # the buffer handed to readinto inside the stitching loop: allocated for piece_length - len(piece so far), and the piece
         # must not have grown between the allocation and the read (otherwise the request is stale and the next file is over-read)
         ghp = C.cfg_of(hp)
@@ -514,13 +561,21 @@ def v1_hasher(ctx):
         ok = norm(a) == "self.paths[self.index]"
         on = C.stmt_node(ctx, nf, o)
         guarded = any(C.test_expr(b) is not None and norm(C.test_expr(b)) == "self.index < len(self.paths)" and lab == "true" for b, lab in gnf.control_deps(on))
-        ctx.decide("C01.6", nf, ok and guarded, "hand-over opens paths[index] when index < len(paths)", "hand-over opens %s under a different bound test" % norm(a), o)
+        listed = isinstance(a, ast.Subscript) and norm(a.value) == "self.paths"
+        if not listed:
+            # the next file is not taken from self.paths by index (an iterator over the list, a queue ...): which file is
+            # opened next is not decided by this rule
+            ctx.undecided("C01.6", nf, "the hand-over opens `%s`, not an indexed element of self.paths: that it is the next file of the list is not decided" % norm(a), o)
+        else:
+            ctx.decide("C01.6", nf, ok and guarded, "hand-over opens paths[index] when index < len(paths)", "hand-over opens %s under a different bound test" % norm(a), o)
     init = cls.methods["__init__"]
     o0 = opened_paths(init)
     i0 = [n for n in own_nodes(init.node) if isinstance(n, ast.Assign) and norm(n.targets[0]) == "self.index"]
     ok = len(o0) == 1 and norm(o0[0][0]) == "self.paths[0]" and len(i0) == 1 and norm(i0[0].value) == "0"
     if not o0:
         ctx.undecided("C01.6", init, "where the first file is opened could not be found (not in the constructor nor in a method it calls with the path)", init.node)
+    elif not all(isinstance(a_, ast.Subscript) and norm(a_.value) == "self.paths" for a_, _ in o0):
+        ctx.undecided("C01.6", init, "the first file is opened as `%s`, not as an indexed element of self.paths: that hashing starts with the first file is not decided" % norm(o0[0][0]), o0[0][1])
     else:
         ctx.decide("C01.6", init, ok, "hashing starts at paths[0] with index 0", "hashing does not start at paths[0] / index 0", o0[0][1])
     pa = [n for n in own_nodes(init.node) if isinstance(n, ast.Assign) and norm(n.targets[0]) == "self.paths"]
